@@ -15,7 +15,7 @@
 (*   <<"kill", k>>   call kill(G[k]) from inside the body, then yield None *)
 (*   <<"start", k>>  call start(G[k]) from inside the body, then yield None*)
 (*   <<"state", k>>  query state(G[k]) from inside the body, then yield None*)
-(*   <<"kill!", k>> <<"start!", k>>  the same calls WITHOUT yielding: the   *)
+(*   <<"kill!", k>> <<"start!", k>> <<"state!", k>>  the same calls WITHOUT yielding: the *)
 (*                   body goes on with its next step in the same frame     *)
 (*   <<"raise", 0>>  the body raises an exception (Quit and SwitchWorld are  *)
 (*                   raised from coroutines by design): process() lets it  *)
@@ -134,7 +134,7 @@ StepGen(s, g) ==
              op == step[1]
              r == IF op \in {"kill", "kill!"} THEN KillOp(s, G[step[2]])
                   ELSE IF op \in {"start", "start!"} THEN StartOp(s, G[step[2]], g)
-                  ELSE IF op = "state" THEN <<s, StateOf(s, G[step[2]])>>
+                  ELSE IF op \in {"state", "state!"} THEN <<s, StateOf(s, G[step[2]])>>
                   ELSE <<s, "-">>
              s1 == [r[1] EXCEPT !.pc[g] = @ + 1, !.log = Append(@, <<g, s.pc[g], r[2]>>)]
              w == IF op = "y" THEN step[2] ELSE 0 IN
@@ -144,7 +144,7 @@ StepGen(s, g) ==
                               !.kq = @ \ {g}, !.pc[g] = Len(sc) + 2, !.abort = TRUE]
               ELSE \* as coded: nothing is cleaned up; the finished generator stays at the head of the deque
                    [s1 EXCEPT !.pc[g] = Len(sc) + 2, !.st[g] = "TERMINATED", !.abort = TRUE]
-         ELSE IF op \in {"kill!", "start!"} THEN StepGen(s1, g)
+         ELSE IF op \in {"kill!", "start!", "state!"} THEN StepGen(s1, g)
          ELSE IF w > 0
          THEN [s1 EXCEPT !.aq = Tail(@), !.wh = @ \cup {<<w + s1.timer, g>>}, !.gens[g] = "waiting",
                          !.st[g] = IF g \in s1.kq THEN "TERMINATED" ELSE "PAUSED", !.elapsed[g] = 0, !.need[g] = w]
@@ -199,7 +199,7 @@ Spec == Init /\ [][Next]_vars
 (* Declarative layer                                                       *)
 Ran(lg) == {lg[i][1] : i \in 1..Len(lg)}
 \* number of times g was advanced (one next() each): log entries of g that end a step - a yield or the return
-EndsStep(g, k) == k > Len(Script[g]) \/ Script[g][k][1] \notin {"kill!", "start!"}
+EndsStep(g, k) == k > Len(Script[g]) \/ Script[g][k][1] \notin {"kill!", "start!", "state!"}
 Times(lg, g) == Cardinality({i \in 1..Len(lg) : lg[i][1] = g /\ EndsStep(g, lg[i][2])})
 InFrame == \E dt \in Dts : Process(dt)
 Pos(q, g) == CHOOSE i \in 1..Len(q) : q[i] = g
